@@ -749,3 +749,11 @@ Definition path_base (p : string) : string :=
 
 Definition path_dir (p : string) : string :=
   path_clean (rev_string (snd (span not_slash (rev_string p)))).
+
+(* ------------------------------------------------------------------ F38: divide_by whose reciprocal overflows
+   driver.reportOptions rejects divide_by = 0 only; report.Options.Ratio = 1/divide_by is +Inf in float64 for a
+   positive divisor below 2^-1024 (subnormal), stacks.go:89 multiplies the flame graph's Scale by it and
+   json.Marshal refuses +Inf: the /flamegraph handler answers 500 "error serializing stacks".
+   Decidable class predicate on the exact value (num # den) of the divisor. *)
+Definition reciprocal_overflows (num den : Z) : bool :=
+  (0 <? num) && (0 <? den) && (num * 2 ^ 1024 <? den).
